@@ -42,6 +42,9 @@ ASSUMPTIONS = [
     "CODATA/IAU) within 5e-4; the geometry is checked to Gauss-Legendre accuracy through ratios of calls "
     "on the same object",
     "distance modulus is checked for z > 0 only (log of zero at z = 0)",
+    "redshifts are exactly 0 or >= 1e-12 and |omega_k| is exactly 0 or >= 1e-8: far below that (z < 1e-150, "
+    "omega_k ~ 1e-248, z = 5e-324) intermediate products underflow and sigmacritinv(0, z) evaluates 0/0 = nan; "
+    "those magnitudes are not cosmologies or redshifts in any realistic sense and are left out",
 ]
 TECHNIQUE = ("property-based search (Hypothesis) over cosmologies, redshift pairs and argument shapes; truth "
              "by adaptive quadrature (QUADPACK, epsrel 1e-13) of Hogg's definitions, allowance derived from "
@@ -63,6 +66,8 @@ S_SINGLE = 1e-10
 S_VOLUME = 5e-10
 S_LENS = 2e-10       # three integrals + the calibration call of the unit constant
 EMIN = 0.05
+ZMIN = 1e-12      # redshifts are exactly 0 or >= ZMIN
+OKMIN = 1e-8      # |omega_k| is exactly 0 (flat) or >= OKMIN
 
 X5, W5 = np.polynomial.legendre.leggauss(5)
 X10, W10 = np.polynomial.legendre.leggauss(10)
@@ -101,7 +106,7 @@ def cosmologies(draw, curved=None):
     is_curved = draw(st.booleans()) if curved is None else curved
     if is_curved:
         ok = draw(_ok)
-        if ok == 0.0:
+        if abs(ok) < OKMIN:
             ok = 0.25
         kw["omega_k"] = ok
         ol = draw(st.one_of(st.floats(0.0, 1.2), st.just(1.0 - om - ok)))
@@ -146,7 +151,7 @@ def concordance(draw):
 
 _z = st.one_of(st.floats(0.0, 5.0), st.floats(0.0, 1.0), st.floats(1.0, 5.0),
                st.floats(-8.0, 0.0).map(lambda e: 10.0 ** e),
-               st.sampled_from([0.0, 5.0, 1.0, 0.5, 2.0]))
+               st.sampled_from([0.0, 5.0, 1.0, 0.5, 2.0])).map(lambda z: 0.0 if z < ZMIN else z)
 
 
 @st.composite
@@ -159,6 +164,8 @@ def zpair(draw):
         a = b
     elif kind == "close":
         a = b * (1.0 - draw(st.floats(-9.0, -2.0).map(lambda e: 10.0 ** e)))
+        if a < ZMIN:
+            a = 0.0
     return [min(a, b), max(a, b)]
 
 
@@ -323,7 +330,11 @@ def check_distances(case, ctx):
         # 1/E(z)
         for z in (a, b):
             got = must(c.Ez_inverse, z)
-            require(ulps(got, f(z)) <= 4, "Ez_inverse(%r) = %.17g, definition %.17g", z, got, f(z))
+            # rounding of the three-term sum E^2 is amplified by (sum |terms|) / E^2 when they cancel
+            opz = 1.0 + z
+            amp = (abs(p.om) * opz ** 3 + abs(0.0 if p.flat else p.ok) * opz ** 2 + abs(p.ol)) * f(z) ** 2
+            require(ulps(got, f(z)) <= 4 + 4 * amp, "Ez_inverse(%r) = %.17g, definition %.17g (allowed "
+                    "%.1f ulp)", z, got, f(z), 4 + 4 * amp)
         got = must(c.Ezinv_integral, a, b)
         bound_check("Ezinv_integral", got, It, Ig, It, S_SINGLE, qrel, ctx, (a, b))
         got = must(c.Dc, a, b)
@@ -439,7 +450,7 @@ def _geom(p, f, zl, zs, I):
     return g, cond
 
 
-ZREF = (0.1, 0.2)
+ZREF = (0.01, 0.02)
 
 
 def check_lensing(case, ctx):
@@ -460,6 +471,8 @@ def check_lensing(case, ctx):
     # unit constant implied by a narrow reference call on this object (Gauss-Legendre error
     # negligible there); it must be 4 pi G Msun / c^2 within 5e-4
     gref, _ = _geom(p, f, ZREF[0], ZREF[1], It)
+    gref_gl, _ = _geom(p, f, ZREF[0], ZREF[1], Ig)
+    s_lens = S_LENS + 1.5 * abs(gref_gl / gref - 1.0)       # (the second term is ~1e-19)
     sref = must(c.sigmacritinv, ZREF[0], ZREF[1])
     require(gref > 0 and sref > 0, "sigmacritinv%r = %r for geometry factor %r", ZREF, sref, gref)
     K = sref / gref
@@ -480,7 +493,7 @@ def check_lensing(case, ctx):
         gt, cond = _geom(p, f, a, b, It)
         gg, _ = _geom(p, f, a, b, Ig)
         got = must(c.sigmacritinv, a, b)
-        bound_check("sigmacritinv", got, K * gt, K * gg, K * cond, S_LENS, max(qrels) if qrels else 0.0, ctx,
+        bound_check("sigmacritinv", got, K * gt, K * gg, K * cond, s_lens, max(qrels) if qrels else 0.0, ctx,
                     (a, b))
 
 
@@ -615,13 +628,14 @@ def array_cases(draw):
         case.update(lo=values(k1, n), hi=values(k2, n2))
         return case
     x, y = values(k1, n), values(k2, n)
+    i1, i2 = k1 in ("i8", "intlist"), k2 in ("i8", "intlist")
     if mode == "aa":
-        case.update(lo=[min(a, b) for a, b in zip(x, y)], hi=[max(a, b) for a, b in zip(x, y)])
-        if k1 in ("i8", "intlist") or k2 in ("i8", "intlist"):
-            # keep the integer container integer-valued: order the pair without mixing the lists
-            case.update(lo=x, hi=[max(a, b) if isinstance(b, int) else float(max(a, b)) for a, b in zip(x, y)])
-            if not all(isinstance(v, int) for v in x) and k2 in ("i8", "intlist"):
-                case.update(lo=[min(a, b) for a, b in zip(x, y)], hi=[int(math.ceil(max(a, b))) for a, b in zip(x, y)])
+        if i1 == i2:
+            case.update(lo=[min(a, b) for a, b in zip(x, y)], hi=[max(a, b) for a, b in zip(x, y)])
+        elif i1:    # integer lower bounds stay integers, the float upper bounds are raised
+            case.update(lo=x, hi=[max(float(a), b) for a, b in zip(x, y)])
+        else:
+            case.update(lo=[min(a, float(b)) for a, b in zip(x, y)], hi=y)
     elif mode == "as":
         s = draw(_z)
         if k1 in ("i8", "intlist"):
@@ -792,7 +806,7 @@ def selftest():
     """Pin the quadrature truth against mpmath and the unit constant against its definition."""
     import mpmath as mp
     mp.mp.dps = 30
-    for om, ok, ol in [(0.3, 0.0, 0.7), (0.05, -0.5, 0.9), (1.2, 0.5, 0.0), (1e-3, 0.0, 0.999)]:
+    for om, ok, ol in [(0.3, 0.0, 0.7), (0.3, -0.5, 1.2), (1.2, 0.5, 0.0), (1e-3, 0.0, 0.999)]:
         def f(z):
             a = 1.0 + z
             return 1.0 / math.sqrt(om * a * a * a + ok * a * a + ol)
